@@ -8,6 +8,7 @@
 package main
 
 import (
+	"syscall"
 	_ "crypto/sha256"
 	_ "crypto/sha512"
 	"encoding/json"
@@ -50,6 +51,7 @@ var partPool = []string{
 	"", "", "user", "alice", "pa:ss", ":", "::", "p@ß", "密码", "a b", "x\"y", "back\\slash",
 	"<tok&en>", "line\nbreak", "tab\there", " ", "\U0001F511key", "eyJhbGciOiJSUzI1NiJ9.e30.c2ln", "=", "dXNlcjpwYXNz",
 	strings.Repeat("long", 40), "\u0001ctl", "trailing:", ":leading", "é",
+	"nul\x00byte", "ls\u2028ps\u2029", "del\x7f", "\ufffd", "\U0010ffff",
 }
 
 func genPart(r *common.Rand) string {
@@ -62,6 +64,25 @@ func genPart(r *common.Rand) string {
 		return b.String()
 	}
 	return common.Pick(r, partPool)
+}
+
+// lone returns s with a lone UTF-16 surrogate (generalized 3-byte form: in a document it is
+// rendered as the escape \udXXX) inserted.
+func lone(r *common.Rand, s string) string {
+	sur := common.Pick(r, []string{"\xed\xa0\x80", "\xed\xb0\x80", "\xed\xaf\xbf", "\xed\xbf\xbf"})
+	i := 0
+	if len(s) > 0 {
+		i = r.Intn(len(s) + 1)
+		for i < len(s) && s[i]&0xC0 == 0x80 {
+			i++
+		}
+	}
+	return s[:i] + sur + s[i:]
+}
+
+// invalidUTF8 returns s made invalid as UTF-8 (a Go string a caller can pass).
+func invalidUTF8(r *common.Rand, s string) string {
+	return s + common.Pick(r, []string{"\xff", "\xc0\x80", "\xed\xa0\x80", "\x80", "\xf4\x90\x80\x80", "\xe2\x82"}) + common.Pick(r, []string{"", "z"})
 }
 
 func genUser(r *common.Rand) string {
@@ -166,7 +187,12 @@ func genDoc(r *common.Rand, addrs []string) *jv {
 	if r.Intn(4) == 0 {
 		h := &jv{k: jObj}
 		for i := r.Intn(3); i > 0; i-- {
-			h.set(common.Pick(r, addrs), jstr(common.Pick(r, []string{"ecr-login", "gcloud", ""})))
+			if r.Intn(4) == 0 {
+				h.set(common.Pick(r, addrs), jnull()) // accepted by Load: a null member of a map[string]string
+				run.Count("doc:credHelpers-null-member")
+			} else {
+				h.set(common.Pick(r, addrs), jstr(common.Pick(r, []string{"ecr-login", "gcloud", ""})))
+			}
 		}
 		d.set("credHelpers", h)
 	}
@@ -174,6 +200,31 @@ func genDoc(r *common.Rand, addrs []string) *jv {
 		k := common.Pick(r, []string{"HttpHeaders", "psFormat", "detachKeys", "experimental", "proxies", "currentContext",
 			"plugins", "Auths", "aliases", "x", "äö", "<html>", "", "features", "cliPluginsExtraDirs"})
 		d.set(k, genValue(r, 0))
+	}
+	// lone surrogate escapes (grammar-valid JSON that encoding/json reads lossily)
+	if r.Intn(12) == 0 {
+		run.Count("doc:lone-surrogate")
+		switch r.Intn(5) {
+		case 0:
+			d.set(lone(r, "key"), genValue(r, 1))
+		case 1:
+			d.set("credsStore", jstr(lone(r, "desk")))
+		case 2:
+			if a := d.get("auths"); a != nil && a.k == jObj {
+				a.set(lone(r, common.Pick(r, addrs)), genEntry(r))
+			}
+		case 3:
+			if a := d.get("auths"); a != nil && a.k == jObj {
+				e := &jv{k: jObj}
+				e.set("auth", jstr(b64("u:p")))
+				e.set("identitytoken", jstr(lone(r, "tok")))
+				a.set(common.Pick(r, addrs), e)
+			}
+		default:
+			v := &jv{k: jObj}
+			v.set(lone(r, "n"), jstr(lone(r, "v")))
+			d.set("nested", v)
+		}
 	}
 	// rare: documents Load must refuse
 	switch r.Intn(60) {
@@ -202,6 +253,12 @@ func genHistory(r *common.Rand, nops int) histCase {
 		hc.Depth = 1 + r.Intn(3)
 	}
 	if r.Intn(40) == 0 {
+		// not one well-formed document: encoding/json's Decoder is lenient about some of these
+		t := common.Pick(r, []string{"{} xyz", "{\"a\":1,\"a\":2}", "\ufeff{}", "", " ", "{}{}", "{\"auths\":{}}\n]", "{\"auths\":{\"h\":{\"auth\":\"dTpw\"},\"h\":{}}}",
+			"{\"k\":1,}", "{'k':1}", "{\"k\":01}", "{\"auths\":{}} {\"auths\":{\"x\":{}}}", "// c\n{}"})
+		hc.Init = &t
+		hc.Mode = 0o600
+	} else if r.Intn(40) == 0 {
 		// valid JSON documents that are not objects
 		t := common.Pick(r, []string{"null", "null\n", " null", "[]", "0", "\"s\"", "true", "[{}]"})
 		hc.Init = &t
@@ -219,6 +276,12 @@ func genHistory(r *common.Rand, nops int) histCase {
 	}
 	for i := 0; i < nops; i++ {
 		a := common.Pick(r, addrs)
+		if r.Intn(25) == 0 {
+			// the fourth saving operation: Config.SetCredentialsStore (DynamicStore.Put calls it)
+			hc.Ops = append(hc.Ops, opx{Op: "C", Addr: common.Pick(r, []string{"desktop", "osxkeychain", "", "pass", "secretservice", "wincred", "über"})})
+			run.Count("op:set-creds-store")
+			continue
+		}
 		switch r.Intn(10) {
 		case 0, 1, 2, 3:
 			o := opx{Op: "P", Addr: a, U: genUser(r), P: genPart(r)}
@@ -228,9 +291,23 @@ func genHistory(r *common.Rand, nops int) histCase {
 			if r.Intn(4) == 0 {
 				o.A = genPart(r)
 			}
+			if r.Intn(12) == 0 { // strings that are not valid UTF-8
+				switch r.Intn(5) {
+				case 0:
+					o.Addr = invalidUTF8(r, o.Addr)
+				case 1:
+					o.R = invalidUTF8(r, o.R)
+				case 2:
+					o.A = invalidUTF8(r, o.A)
+				case 3:
+					o.P = invalidUTF8(r, o.P) // travels base64-encoded: must round trip
+				default:
+					o.U = invalidUTF8(r, o.U)
+				}
+			}
 			hc.Ops = append(hc.Ops, o)
 			if r.Intn(3) != 0 && i+1 < nops {
-				hc.Ops = append(hc.Ops, opx{Op: "G", Addr: a})
+				hc.Ops = append(hc.Ops, opx{Op: "G", Addr: o.Addr})
 				i++
 			}
 		case 4, 5:
@@ -258,8 +335,17 @@ func main() {
 		concChildMain()
 		return
 	}
+	syscall.Umask(0o022) // the exact modes 0600/0700 are asserted: do not depend on the caller's umask
 	run = common.Start("C18")
-	defer run.Finish()
+	defer func() {
+		bad := checkFloors()
+		run.Finish()
+		if len(bad) > 0 {
+			// a run that did not exercise what it claims to exercise must not pass silently (layer R)
+			fmt.Fprintln(os.Stderr, "COVERAGE FLOOR NOT MET: "+strings.Join(bad, "; "))
+			os.Exit(3)
+		}
+	}()
 	run.Rule = "H: generated docker config documents (unknown nested keys, big numbers, legacy/malformed/unknown-field auth entries, " +
 		"refused documents) x 10-op Put/Get/Delete histories over colliding address forms and credentials with empty parts, colons, " +
 		"non-ASCII, JSON/HTML-special characters; K: SIGKILL before every system call of a save; S: concurrent callers. " +
@@ -321,4 +407,47 @@ func fixedHistories() []histCase {
 			{Op: "G", Addr: "registry.example.com"}, {Op: "D", Addr: "registry.example.com"}, {Op: "G", Addr: "registry.example.com"}}},
 		{Kind: "H", SubDir: true, Ops: []opx{{Op: "D", Addr: "a"}, {Op: "P", Addr: "a", U: "", P: "", R: "rt"}, {Op: "G", Addr: "a"}, {Op: "P", Addr: "a", U: "x:y", P: "p"}, {Op: "G", Addr: "a"}}},
 	}
+}
+
+// checkFloors: minimum coverage of a generated (non-replay) run.
+func checkFloors() []string {
+	if run.Replay != "" {
+		return nil
+	}
+	var bad []string
+	need := func(key string, min int) {
+		if run.Dist[key] < min {
+			bad = append(bad, fmt.Sprintf("%s = %d (< %d)", key, run.Dist[key], min))
+		}
+	}
+	if run.Dist["crash:strace-unavailable"] > 0 {
+		bad = append(bad, "strace fault injection is unavailable: no crash point and no controlled schedule was run")
+	}
+	need("crash:judged-kills", run.Scale(60, 600))
+	need("ioerr:operation-failed", run.Scale(15, 150))
+	need("conc:controlled-overlap-verified", run.Scale(4, 30))
+	need("conc:free-cases-judged", run.Scale(250, 15000))
+	need("conc:race-detector-cases", run.Scale(250, 15000))
+	need("conc:dynamic-store", run.Scale(80, 1500))
+	need("stream:legacy-get", run.Scale(60, 3000))
+	need("stream:plain-vs-memory", run.Scale(60, 5000))
+	need("ref:memory-store", run.Scale(60, 5000))
+	need("init:doc", run.Scale(400, 40000))
+	need("init:unparseable-but-loaded", run.Scale(2, 100))
+	need("init:symlinked-path", run.Scale(20, 2000))
+	need("store:disable-put", run.Scale(10, 1000))
+	need("op:set-creds-store", run.Scale(50, 5000))
+	need("codec:decode", run.Scale(1000, 100000))
+	need("doc:lone-surrogate", run.Scale(10, 500))
+	need("put:invalid-utf8", run.Scale(10, 500))
+	if run.Dist["crash:unaligned"]*4 > run.Dist["crash:judged-kills"] {
+		bad = append(bad, fmt.Sprintf("crash:unaligned = %d: more than a quarter of the kills missed their system call", run.Dist["crash:unaligned"]))
+	}
+	if run.Dist["crash:reference-run-failed"]+run.Dist["crash:record-failed"]+run.Dist["crash:no-window"] > run.Scale(2, 20) {
+		bad = append(bad, "too many crash scenarios could not be set up")
+	}
+	if run.Dist["unjudged:case-variant-field"]*10 > run.Dist["init:doc"] {
+		bad = append(bad, "more than 10% of the histories were not judged by the model")
+	}
+	return bad
 }
